@@ -20,7 +20,9 @@ from pyvc.sym import SB, SI, SR, check, explore
 PROPERTY = "C14"
 LEVEL = "proof"
 TRUSTED = ["abstract HDF5 store (fsmodel): what is stored is what is read back; None is not storable; h5py.Empty is a value-less attribute",
-           "pickle / cloudpickle (real)", "Polygon / Device round trips (shapely, real h5py) are NOT under contract: bounded native run only"]
+           "pickle / cloudpickle (real)", "Device / Polygon (de)serialisation under contract over the abstract store with stand-ins for the components' own "
+           "round trips; what the Polygon constructor (shapely: orientation, validity) makes of the stored vertices: bounded native run only",
+           "h5py iterates the members of a group in name order (model)"]
 ASSUMPTIONS = ["arrays are opaque symbolic arrays: a round trip is 'the object read back is the object stored' (identity of the array term)",
                "mesh_restore_equals_recompute is covered only by the bounded native run"]
 EXPLANATION = "round-trip contracts of the real to_hdf5/from_hdf5 pairs over an abstract store with symbolic contents; options incl. None; parameters via pickling (C16)"
@@ -342,6 +344,10 @@ def units():
             Unit("Solution solve_step", SOL + ":Solution.__init__ / load_tdgl_data", run_solve_step, props=["C14"], timeout=300),
             Unit("Layer.to_hdf5/from_hdf5", "tdgl.device.layer:Layer.to_hdf5 / from_hdf5", run_layer, props=["C14"], timeout=300),
             Unit("EdgeMesh/Mesh/DynamicsData to_hdf5/from_hdf5", "tdgl.finite_volume.edge_mesh:EdgeMesh, tdgl.finite_volume.mesh:Mesh, tdgl.solution.data:DynamicsData", run_meshes, props=["C14"], timeout=300),
+            Unit("Device.to_hdf5/from_hdf5", "tdgl.device.device:Device.to_hdf5 / Device.from_hdf5",
+                 lambda m=None: __import__("checks.device_io_common", fromlist=["x"]).run_device_io(m), props=["C14"], timeout=300),
+            Unit("Polygon.to_hdf5/from_hdf5", "tdgl.device.polygon:Polygon.to_hdf5 / Polygon.from_hdf5",
+                 lambda m=None: __import__("checks.device_io_common", fromlist=["x"]).run_polygon_io(m), props=["C14"], timeout=300),
             Unit("CompositeParameter pickle", "tdgl.parameter:CompositeParameter.__getstate__/__setstate__", run_param_pickle, props=["C14", "C16"], timeout=600),
             _h.bounded_unit("real h5py round trips [bounded]", "Device / Mesh / Solution to_hdf5, from_hdf5 (real h5py)", "C14", _bounded_quick, "devices_meshes_and_solutions_survive_the_round_trip", timeout=900)]
 
@@ -469,6 +475,9 @@ def replay(unit, obl):
 
 P_ = "tdgl.parameter"
 MUTANTS = [
+    dict(name="device: mesh saved regardless of save_mesh", edits=[("tdgl.device.device", "            if save_mesh and self.mesh is not None:", "            if self.mesh is not None:")], units=["Device.to_hdf5/from_hdf5"]),
+    dict(name="device: probe points not read back", edits=[("tdgl.device.device", "            if \"probe_points\" in f:\n                probe_points = np.array(f[\"probe_points\"])", "            if False:\n                probe_points = np.array(f[\"probe_points\"])")], units=["Device.to_hdf5/from_hdf5"]),
+    dict(name="polygon: mesh flag not stored", edits=[("tdgl.device.polygon", "        h5_group.attrs[\"mesh\"] = self.mesh\n", "        h5_group.attrs[\"mesh\"] = True\n")], units=["Polygon.to_hdf5/from_hdf5"]),
     dict(name="falsy options dropped on save", edits=[(SOL, "                if v is None:\n                    # None cannot be stored in an HDF5 attribute:\n                    # store an empty attribute instead.\n                    v = h5py.Empty(\"f\")\n                options_grp.attrs[k] = v", "                if v:\n                    options_grp.attrs[k] = v")]),
     dict(name="None options skipped again", edits=[(SOL, "                    v = h5py.Empty(\"f\")\n                options_grp.attrs[k] = v", "                    continue\n                options_grp.attrs[k] = v")]),
     dict(name="layer z0 stored as thickness", edits=[("tdgl.device.layer", "h5_group.attrs[\"z0\"] = self.z0", "h5_group.attrs[\"z0\"] = self.thickness")]),
